@@ -2,8 +2,10 @@
 from __future__ import annotations
 
 import copy
+import hashlib
 import io
 import random
+import struct as _st
 
 from sim import gen
 from sim.core import Discard, Violation
@@ -18,7 +20,9 @@ RULE = ("case = seeded (definition set, config, accepted input A); within a case
         "each cut k in [0,len A), and for each read call i of the fault-free parse: short(m in {0,1,n-1}), empty, none, "
         "raise(EIO|TIMEOUT|EINTR); every seek/tell call: raise; plus sampled 2-3 fault sequences. evaluations = faulted "
         "parses executed. distinct_nontrivial = distinct (definition-shape digest, fault kind, library function that issued "
-        "the faulted call, outcome class) tuples where the fault actually fired inside a parse.")
+        "the faulted call, outcome class) tuples where the fault actually fired inside a parse. About 1% of the cases are a "
+        "structure around ONE long array (255..65537 elements, lengths at powers of two +-1; fixed, [2][n/2] or header-given "
+        "length): there cuts and short reads are SAMPLED at and around element boundaries instead of enumerated.")
 ASSUMPTIONS = [
     "A read that returns b'' or fewer bytes than requested is the stream's way of signalling end of data (Python file protocol).",
     "To-end-of-stream arrays ([EOF]) are exempt from the equality clause for eof/short/empty faults that land at or after the first "
@@ -31,22 +35,84 @@ REAL = ["dissect.cstruct parser, compiler-generated readers, all type readers", 
 STUBS = ["SimStream (stands in for file/pipe/socket objects)"]
 
 
+# boundary sizes: arrays long enough to cross block sizes, bulk-path thresholds and 16-bit counters
+BIG_LENS = [255, 256, 257, 1023, 1024, 1025, 4095, 4096, 4097, 5000, 8192, 16383, 16384, 16385, 32767, 32768, 32769, 65535, 65536, 65537]
+BIG_TYPES = ["uint8", "int8", "char", "int16", "uint16", "wchar", "int24", "uint32", "int32", "float", "uint64", "double", "int64"]
+BIG_MAX_BYTES = 140000
+
+
+def _fld(name, typ, dims=()):
+    return {"name": name, "type": typ, "inline": None, "ptr": 0, "dims": list(dims), "bits": None}
+
+
+def gen_big(rng: random.Random):
+    """A structure around ONE long array (fixed length, two-dimensional, or length given by a header field)."""
+    t = rng.choice(BIG_TYPES)
+    n = rng.choice([x for x in BIG_LENS if x * gen.SIZES[t] <= BIG_MAX_BYTES and (t != "int24" or x <= 1025)])  # int24: one read per element
+    fields = []
+    mode = rng.choice(["fixed", "fixed", "fixed", "dyn", "2d"])
+    if mode == "dyn":
+        fields.append(_fld("n", "uint32"))
+        dims = ["n"]
+    else:
+        if rng.random() < 0.5:
+            fields.append(_fld("h", rng.choice(["uint8", "uint16", "uint32"])))
+        dims = [n] if mode == "fixed" else [2, n // 2]
+    fields.append(_fld("arr", t, dims))
+    if rng.random() < 0.5:
+        fields.append(_fld("t", rng.choice(["uint8", "uint16"])))
+    return {"defines": [], "enums": [], "structs": [{"kind": "struct", "name": "Big", "fields": fields}]}, {"t": t, "n": n, "mode": mode}
+
+
+def _fast_obs(x):
+    """observe() for values holding long homogeneous lists: the list payload is hashed (element classes are kept)."""
+    from dissect.cstruct.types import Structure
+
+    if isinstance(x, Structure):
+        return ["S", type(x).__name__, [[f._name, _fast_obs(getattr(x, f._name))] for f in type(x).__fields__]]
+    if isinstance(x, list) and len(x) > 64:
+        ts = set(map(type, x))
+        if len(ts) == 1:
+            et = next(iter(ts))
+            if issubclass(et, int) and not issubclass(et, bool):
+                payload = repr(list(map(int.__index__, x))).encode()
+            elif issubclass(et, float):
+                payload = _st.pack(f">{len(x)}d", *x)
+            elif issubclass(et, list):
+                return ["L", type(x).__name__, [_fast_obs(e) for e in x]]
+            else:
+                return observe(x, sizes=False)
+            return ["LH", type(x).__name__, et.__name__, len(x), hashlib.blake2b(payload, digest_size=12).hexdigest()]
+    if isinstance(x, (bytes, str)) and len(x) > 64:
+        raw = x if isinstance(x, bytes) else x.encode("utf-16-le", "surrogatepass")
+        return ["H", type(x).__name__, len(x), hashlib.blake2b(bytes(raw), digest_size=12).hexdigest()]
+    return observe(x, sizes=False)
+
+
 def gen_case(rng: random.Random, tier: str):
     cfg = gen.gen_config(rng)
+    if rng.random() < 0.01:
+        defs, big = gen_big(rng)
+        return {"cfg": cfg, "defs": defs, "eof_tagged": False, "data_seed": rng.getrandbits(32),
+                "data": None, "multi_seed": rng.getrandbits(32), "big": big}
     g = gen.DefGen(rng)
     defs = g.build()
     return {"cfg": cfg, "defs": defs, "eof_tagged": g.has_eof, "data_seed": rng.getrandbits(32),
             "data": None, "multi_seed": rng.getrandbits(32)}
 
 
-def _outcome(root, stream):
+def _outcome(root, stream, obs=None):
     try:
         v = root(stream)
     except BaseException as e:  # noqa: BLE001 - injected faults may be any exception
         if isinstance(e, (KeyboardInterrupt, SystemExit, MemoryError)):
             raise
         return ("exc", type(e).__name__, str(e)[:80])
-    return ("val", observe(v, sizes=False))
+    return ("val", (obs or _plain_obs)(v))
+
+
+def _plain_obs(v):
+    return observe(v, sizes=False)
 
 
 def run_case(case, stats):
@@ -58,8 +124,24 @@ def run_case(case, stats):
     except Exception:
         raise Discard("load_fail")
 
+    big = case.get("big")
+    obs = _fast_obs if big else _plain_obs
     # accepted input
-    if case["data"] is None:
+    if big:
+        # long inputs are regenerated from the seed on every execution (they are not stored in the replay file)
+        drng = random.Random(case["data_seed"])
+        pat = gen.gen_bytes(drng, 997 + drng.randrange(40))
+        body = (pat * (BIG_MAX_BYTES // len(pat) + 2))[: BIG_MAX_BYTES + 256]
+        order = "little" if cfg["endian"] == "<" else "big"
+        data = (big["n"].to_bytes(4, order) if big["mode"] == "dyn" else b"") + body
+        s0 = io.BytesIO(data)
+        try:
+            root(s0)
+        except Exception:
+            raise Discard("baseline_raises")
+        A = data[: s0.tell()]
+        stats.count("probe.big_array_case")
+    elif case["data"] is None:
         drng = random.Random(case["data_seed"])
 
         def p(d):
@@ -75,12 +157,13 @@ def run_case(case, stats):
         if len(A) > 200:
             raise Discard("input_too_long")
         case["data"] = A.hex()
-    A = bytes.fromhex(case["data"])
+    if not big:
+        A = bytes.fromhex(case["data"])
 
     # baseline on a fault-free SimStream
     base = SimStream(A, track=True)
     try:
-        V = observe(root(base), sizes=False)
+        V = obs(root(base))
     except Exception:
         raise Discard("baseline_raises")
     X = base.pos
@@ -100,20 +183,47 @@ def run_case(case, stats):
 
     # residue baselines
     def fresh():
-        return _outcome(root, io.BytesIO(A))
+        return _outcome(root, io.BytesIO(A), obs)
 
     # a second, different input of the same type: its parse must not change either after failed parses
-    A2 = gen.gen_bytes(random.Random(case["multi_seed"] ^ 0x5A5A), max(8, len(A)))
-    V2 = _outcome(root, io.BytesIO(A2))
+    if big:
+        p2 = gen.gen_bytes(random.Random(case["multi_seed"] ^ 0x5A5A), 509)
+        A2 = A[:4] + (p2 * (len(A) // len(p2) + 1))[: len(A) - 4]
+    else:
+        A2 = gen.gen_bytes(random.Random(case["multi_seed"] ^ 0x5A5A), max(8, len(A)))
+    V2 = _outcome(root, io.BytesIO(A2), obs)
     if fresh() != ("val", V):
         raise Violation("stream_kind", "simstream_vs_bytesio", f"fault-free SimStream and BytesIO disagree on {A.hex()}")
 
-    # fault plans: full single-fault enumeration
-    plans = [[{"kind": "eof", "k": k}] for k in range(0, len(A))]
+    # fault plans: full single-fault enumeration (long inputs: cuts and short reads sampled at and around element boundaries)
+    mrng = random.Random(case["multi_seed"])
+    if big:
+        esz = gen.SIZES[big["t"]]
+        r_arr = max(reads, key=lambda e: e[3] if isinstance(e[3], int) else 0)
+        a0 = r_arr[2]
+        ks = {0, 1, len(A) - 1, max(0, len(A) - esz), a0, a0 + esz}
+        for _ in range(6):
+            ks.add(a0 + esz * mrng.randrange(1, big["n"]))
+        for thr in (4096, 0x10000 // esz, 256, 1024):
+            if thr < big["n"]:
+                ks.add(a0 + esz * thr)
+        for _ in range(3):
+            ks.add(mrng.randrange(len(A)))
+        plans = [[{"kind": "eof", "k": k}] for k in sorted(k for k in ks if 0 <= k < len(A))]
+    else:
+        plans = [[{"kind": "eof", "k": k}] for k in range(0, len(A))]
+    sel = None
+    if big and len(reads) > 8:
+        # element-wise readers issue one read per element: sample the faulted read calls
+        sel = {0, 1, len(reads) - 1, len(reads) - 2} | {mrng.randrange(len(reads)) for _ in range(4)}
     for i, e in enumerate(reads):
+        if sel is not None and i not in sel:
+            continue
         n = e[1]
         got = e[3]
         ms = {0, 1, max(0, got - 1)} if got else {0}
+        if big and got and got > 64:
+            ms |= {esz * mrng.randrange(1, max(2, got // esz)), esz * min(4096, got // esz - 1), mrng.randrange(got)}
         for m in sorted(ms):
             if (n is None or n < 0 or m < n) and m < max(got, 1):
                 plans.append([{"kind": "short", "i": i, "m": m}])
@@ -121,12 +231,11 @@ def run_case(case, stats):
         plans.append([{"kind": "none", "i": i}])
         for ex in ("EIO", "TIMEOUT", "EINTR"):
             plans.append([{"kind": "raise_read", "i": i, "e": ex}])
-    for i in range(n_seek):
+    for i in (range(n_seek) if not big else sorted({0, n_seek - 1, mrng.randrange(max(1, n_seek))} & set(range(n_seek)))):
         plans.append([{"kind": "raise_seek", "i": i, "e": "UNSUP"}])
-    for i in range(n_tell):
+    for i in (range(n_tell) if not big else sorted({0, n_tell - 1, mrng.randrange(max(1, n_tell))} & set(range(n_tell)))):
         plans.append([{"kind": "raise_tell", "i": i, "e": "EIO"}])
     # sampled multi-fault sequences
-    mrng = random.Random(case["multi_seed"])
     if n_read >= 2:
         for _ in range(8):
             i = mrng.randrange(n_read)
@@ -143,7 +252,7 @@ def run_case(case, stats):
 
     for plan in plans:
         st = SimStream(A, faults=plan, track=True)
-        out = _outcome(root, st)
+        out = _outcome(root, st, obs)
         stats.count("evaluations")
         stats.count("steps", len(st.log))
         kinds = [f["kind"] for f in plan]
@@ -181,7 +290,7 @@ def run_case(case, stats):
                         tw = _twin(A, D, fill)
                         if tw == A:
                             continue
-                        o2 = _outcome(root, io.BytesIO(tw))
+                        o2 = _outcome(root, io.BytesIO(tw), obs)
                         stats.count("twin_parses")
                         if o2[0] == "val" and o2[1] != W:
                             raise Violation("never_fabricates", "value_without_data",
@@ -204,7 +313,7 @@ def run_case(case, stats):
                 st.by_seek.clear()
                 st.by_tell.clear()  # whatever part of the plan has not fired is withdrawn: the stream is healthy from now on
                 st.seek(0)
-                again = _outcome(root, st)
+                again = _outcome(root, st, obs)
             except Exception as e:  # noqa: BLE001
                 again = ("exc", type(e).__name__, "")
             stats.count("probe.same_stream_reparse")
@@ -212,7 +321,7 @@ def run_case(case, stats):
                 raise Violation("no_residue", "same_stream_reparse_differs",
                                 f"after faulted parse plan={plan} parsing again from offset 0 of the SAME stream object gives {again} instead of {V}", plan=plan)
         if stats.c["evaluations"] % 7 == 0:
-            r2 = _outcome(root, io.BytesIO(A2))
+            r2 = _outcome(root, io.BytesIO(A2), obs)
             if r2 != V2:
                 raise Violation("no_residue", "later_parse_of_other_input_changed",
                                 f"after faulted parse plan={plan} parsing another input {A2.hex()} gives {r2} instead of {V2}", plan=plan)
@@ -222,7 +331,25 @@ def run_case(case, stats):
                             f"after faulted parse plan={plan} a fresh parse of the complete input gives {r} instead of {V}", plan=plan)
 
 
+_UNSEEN = bytes(0xFF if i == 0 else 0 for i in range(256))
+
+
 def _twin(A: bytes, D: bytearray, fill: str) -> bytes:
+    if len(A) > 400:
+        # long inputs: the same completions computed with big-integer masks
+        n = len(A)
+        mask = int.from_bytes(bytes(D).translate(_UNSEEN), "big")
+        a = int.from_bytes(A, "big")
+        if fill == "comp":
+            v = a ^ mask
+        elif fill == "zero":
+            v = a & ~mask
+        elif fill == "ff":
+            v = a | mask
+        else:
+            rr = random.Random(n * 7 + (1 if fill == "r1" else 2))
+            v = (a & ~mask) | (int.from_bytes(rr.randbytes(n), "big") & mask)
+        return v.to_bytes(n, "big")
     out = bytearray(A)
     rr = random.Random(len(A) * 7 + (1 if fill == "r1" else 2))
     for i in range(len(A)):
